@@ -185,6 +185,23 @@ def property_assumptions(targets, wd):
     return res
 
 
+def coqchk(targets, timeout=2400):
+    """independent re-check (coqchk -o) of the compiled property files and everything they depend on; thorough tier only"""
+    mods = []
+    for t in targets:
+        if "/Properties/" in t:
+            mods.append("VF.Properties." + os.path.basename(t).split(".")[0])
+    if not mods:
+        return {}
+    t0 = time.time()
+    p = subprocess.run(["timeout", str(timeout), "coqchk", "-silent", "-o", "-Q", "theories", "VF", "-Q", "gen/params", "VFP"] + mods,
+                       cwd=COQ, stdout=subprocess.PIPE, stderr=subprocess.STDOUT, text=True)
+    out = p.stdout
+    m = re.search(r"\* Axioms:(.*?)\n\s*\n\* ", out + "\n\n* ", re.S)
+    return {"rc": p.returncode, "modules": mods, "wall_s": round(time.time() - t0, 1),
+            "axioms": (m.group(1).strip() if m else "?"), "tail": out[-600:]}
+
+
 def forbidden_scan():
     """grep gate: nothing admitted, no axioms declared, no checks switched off"""
     pat = re.compile(r'\b(Admitted|admit|Axiom|Axioms|Parameter|Parameters|Conjecture|Hypothesis|Hypotheses|Variable|Variables)\b|Unset\s+Guard|bypass_check|Admit\s+Obligations|-type-in-type|-impredicative-set')
